@@ -4,6 +4,7 @@ go 1.23.0
 
 require (
 	github.com/ProtonMail/go-crypto v1.2.0
+	github.com/blakesmith/ar v0.0.0-20190502131153-809d4375e1fb
 	github.com/goreleaser/nfpm/v2 v2.0.0
 	github.com/klauspost/compress v1.18.0
 	github.com/ulikunitz/xz v0.5.12
@@ -16,7 +17,6 @@ require (
 	github.com/Masterminds/goutils v1.1.1 // indirect
 	github.com/Masterminds/semver/v3 v3.3.1 // indirect
 	github.com/Masterminds/sprig/v3 v3.3.0 // indirect
-	github.com/blakesmith/ar v0.0.0-20190502131153-809d4375e1fb // indirect
 	github.com/cavaliergopher/cpio v1.0.1 // indirect
 	github.com/cloudflare/circl v1.6.0 // indirect
 	github.com/cyphar/filepath-securejoin v0.4.1 // indirect
